@@ -38,6 +38,8 @@ pub struct WState {
     /// poll_shutdown) stays Pending for ever (a full pipe that nobody drains; no error, no wake-up)
     pub stall_at: Option<usize>,
     pub shutdown: bool,
+    /// the error kind of injected write / flush failures (default BrokenPipe)
+    pub fail_kind: Option<std::io::ErrorKind>,
 }
 
 #[derive(Clone)]
@@ -61,6 +63,9 @@ impl WHandle {
     }
     pub fn set_fail_at(&self, off: Option<usize>) {
         self.0.lock().unwrap().fail_at = off;
+    }
+    pub fn set_fail_kind(&self, k: std::io::ErrorKind) {
+        self.0.lock().unwrap().fail_kind = Some(k);
     }
     pub fn set_stall_at(&self, off: Option<usize>) {
         self.0.lock().unwrap().stall_at = off;
@@ -120,10 +125,8 @@ impl AsyncWrite for RecWriter {
         if let Some(off) = st.fail_at {
             if st.total >= off {
                 st.log.push(WEv::Failed);
-                return Poll::Ready(Err(std::io::Error::new(
-                    std::io::ErrorKind::BrokenPipe,
-                    "injected write failure",
-                )));
+                let kind = st.fail_kind.unwrap_or(std::io::ErrorKind::BrokenPipe);
+                return Poll::Ready(Err(std::io::Error::new(kind, "injected write failure")));
             }
             n = n.min(off - st.total);
         }
@@ -140,10 +143,8 @@ impl AsyncWrite for RecWriter {
         if let Some(off) = st.fail_at {
             if st.total >= off {
                 st.log.push(WEv::Failed);
-                return Poll::Ready(Err(std::io::Error::new(
-                    std::io::ErrorKind::BrokenPipe,
-                    "injected flush failure",
-                )));
+                let kind = st.fail_kind.unwrap_or(std::io::ErrorKind::BrokenPipe);
+                return Poll::Ready(Err(std::io::Error::new(kind, "injected flush failure")));
             }
         }
         st.log.push(WEv::Flush);
